@@ -159,6 +159,8 @@ def check(ctx: Ctx) -> None:
         takes = [n for n in repo.own_nodes(ui) if isinstance(n, ast.Assign) and unparse(n.targets[0]) == "strconfig"
                  and unparse(n.value).endswith("._strconfig")]
         ob.site(ui, takes[0] if takes else None, "Unserializer adopts channel_or_gateway._strconfig")
+        if not takes and any(isinstance(n, ast.Attribute) and n.attr == "_strconfig" for n in repo.own_nodes(ui)):
+            raise AnalysisError("C12.d: Unserializer.__init__ reads ._strconfig through an idiom the checker does not know")
         if not takes:
             ob.violation(ui, ui.node, "Unserializer.__init__ no longer adopts the strconfig of its channel/gateway", construct="no _strconfig adoption")
         else:
